@@ -68,6 +68,7 @@ structure CMon where
   doneSeen : Bool := false    -- DROPPED was reported
   valueSent : Bool := false   -- future: COMPLETED was reported
   endDrops : Nat := 0
+  dropping : Bool := false    -- the body is dropping the channel's operation (what it still receives is discarded)
 deriving DecidableEq, Repr
 
 def told (m : CMon) (code : Nat) : CMon :=
@@ -100,9 +101,11 @@ def step (k : CSpec) (m : CMon) : Ev → Except String CMon
   | .ch .ifw [c, id] | .ch .defv [c, id] =>
     if c ≠ k.c then .ok m else .ok { m with rust := m.rust ++ [id], toLower := [id], started := false, lastCode := none }
   | .ch .ib [c] => if c ≠ k.c then .ok m else .ok { m with opMoved := 0 }
-  | .ch .ir [c, _] | .ch .inx [c] | .ch .ico [c] =>
-    -- a new read fills a fresh vector (canonical items a dropped read had received are gone silently)
-    if c ≠ k.c then .ok m else .ok { m with opMoved := 0, got := if k.lowers then m.got else [] }
+  | .ch .ir [c, _] | .ch .inx [c] | .ch .ico [c] => if c ≠ k.c then .ok m else .ok { m with opMoved := 0, dropping := false }
+  -- the body drops the channel's operation: canonical items a dropped read had received, or still
+  -- receives while it is cancelled, are gone silently (lifted ones are dropped visibly: `vd`)
+  | .dropF c | .edrop c =>
+    if c ≠ k.c then .ok m else .ok { m with got := if k.lowers then m.got else [], dropping := true }
   | .ch .ifr [c] => if c ≠ k.c then .ok m else .ok { m with started := false, lastCode := none }
   -- payload callbacks
   | .ch .lo [c, id] =>
@@ -142,7 +145,7 @@ def step (k : CSpec) (m : CMon) : Ev → Except String CMon
       if m.given + ids.length > 1 && k.fut then .error "reader-value-twice" else
       .ok { m with given := m.given + ids.length, opMoved := m.opMoved + ids.length, sinceTold := m.sinceTold + ids.length,
                    inbuf := if k.lowers then m.inbuf ++ ids else m.inbuf,
-                   got := if k.lowers then m.got else m.got ++ ids }
+                   got := if k.lowers || m.dropping then m.got else m.got ++ ids }
   -- what the host tells the guest
   | .ch .swrite [h, n, code] =>
     if h ≠ m.handle || m.handle = 0 then .ok m else
